@@ -30,7 +30,7 @@ LEVEL_TEXT = ("Proved in full in the model, for every registry, integer range an
               "Proofs/TextSound.v (induction on the QT derivation running that machine; every construct restores mode and stacks) and Proofs/AbnfDerive.v (names, integers, string bodies with escapes and "
               "surrogate pairs, numbers: derivations from what the lexer's regexes can match - matcher soundness w.r.t. the regex language - and what the parser checks). "
               "Also: the grammar recognizer used as oracle is sound and complete for the transcribed ABNF (in_rfc_sound, in_rfc_complete); every generated string outside the grammar must be rejected by the real compile().")
-LEVEL_NOTE = ("The theorem is about the model (Model/Lex.v, Model/Parse.v), tied to lex.py / parse.py by regenerated tables and this correspondence. "
+LEVEL_NOTE = ("C04_sound_builtin: with the built-in registry whatever compile() accepts is a string of bf_grammar (Spec/BuiltinGrammar.v: the RFC grammar with well-typed built-in calls), so typing violations are covered by a grammar statement too. The theorem is about the model (Model/Lex.v, Model/Parse.v), tied to lex.py / parse.py by regenerated tables and this correspondence. "
               "Trusted: Coq kernel, the grammar transcription Spec/Rfc9535Grammar.v (one marked reading decision), extraction and driver.")
 
 CLASSICS = ["$.a-b", "$[1:2 3]", "$[?@.a==-01]", "$[?!!@.a]", "$[?(@.a)==1]", "$[?count(@.a,)==1]", "$[?@.a==1==1]", "$[?!true]", "$[?@.a == !@.b]",
